@@ -400,20 +400,36 @@ class C19(StructBase):
     def extra_violations(self, stats):
         """the caller keeps only the LAW SETS (universes built in place: `L.applies_to = Universe()`,
         `Universe(laws=L)` not bound to a name): every assignment must still have succeeded when it is read back
-        through the law set — `L.applies_to` is the universe that was assigned and `L.applies_to.laws is L`"""
+        through the law set — `L.applies_to` is the universe that was assigned and `L.applies_to.laws is L`.
+        Every other history runs with warnings turned into errors (`-W error`, the usual CI setting): "every such
+        assignment succeeds" — a warning raised half-way through an assignment must not leave it half-done"""
+        import warnings
+        out, probes = [], 0
+        for n in range(300):
+            with warnings.catch_warnings():
+                warnings.simplefilter("error" if n % 2 else "ignore")
+                v, k = self._laws_only_history(n)
+            probes += k
+            if v is not None and len(out) < 3:
+                out.append(v)
+        stats.extra["laws_only_handle_probes"] = probes
+        return out
+
+    @staticmethod
+    def _laws_only_history(n):
         import gc
         import random as _r
         import weakref
         from engine import Violation
-        rng = _r.Random(1907)
-        out, probes = [], 0
-        for _ in range(300):
-            laws = [UniverseLaws() for _ in range(2)]
-            want = [None, None]          # weak handle on the universe each law set should apply to
-            hist = []
-            for _s in range(rng.randint(1, 8)):
-                i = rng.randrange(2)
-                r = rng.random()
+        rng = _r.Random(1907 + n)
+        probes = 0
+        laws = [UniverseLaws() for _ in range(2)]
+        want = [None, None]          # weak handle on the universe each law set should apply to
+        hist = []
+        for _s in range(rng.randint(1, 8)):
+            i = rng.randrange(2)
+            r = rng.random()
+            try:
                 if r < 0.35:
                     hist.append("L%d.applies_to = Universe()" % i)
                     laws[i].applies_to = Universe()
@@ -422,34 +438,41 @@ class C19(StructBase):
                     hist.append("Universe(laws=L%d)" % i)
                     Universe(laws=laws[i])
                     want[i] = weakref.ref(laws[i].applies_to) if laws[i].applies_to is not None else "lost"
-                elif r < 0.75:
+                elif r < 0.7:
                     hist.append("L%d.applies_to = None" % i)
                     laws[i].applies_to = None
                     want[i] = None
-                elif r < 0.9 and laws[1 - i].applies_to is not None:
+                elif r < 0.8 and laws[1 - i].applies_to is not None:
                     hist.append("L%d.applies_to = L%d.applies_to" % (i, 1 - i))
                     laws[i].applies_to = laws[1 - i].applies_to
                     want[i], want[1 - i] = weakref.ref(laws[i].applies_to) if laws[i].applies_to is not None else "lost", None
+                elif r < 0.92 and laws[1 - i].applies_to is not None:
+                    # from the universe side: the universe of the other law set takes this one
+                    hist.append("L%d.applies_to.laws = L%d" % (1 - i, i))
+                    u = laws[1 - i].applies_to
+                    u.laws = laws[i]
+                    want[i], want[1 - i] = weakref.ref(u), None
+                    del u
                 else:
                     hist.append("gc.collect()")
                     gc.collect()
-                probes += 1
-                msg = None
-                for j in range(2):
-                    got = laws[j].applies_to
-                    if want[j] is None:
-                        if got is not None:
-                            msg = "L%d.applies_to should be None" % j
-                    elif want[j] == "lost" or got is None or want[j]() is not got:
-                        msg = "L%d.applies_to reads %r: the assignment did not stick (the law set is the caller's only handle on that universe)" % (j, got)
-                    elif got.laws is not laws[j]:
-                        msg = "L%d.applies_to.laws is not L%d" % (j, j)
-                if msg:
-                    if len(out) < 3:
-                        out.append(Violation("oracle", "after [%s]: %s" % ("; ".join(hist), msg), ["sweep:laws-only handles: " + "; ".join(hist)]))
-                    break
-        stats.extra["laws_only_handle_probes"] = probes
-        return out
+            except Warning as exc:
+                return Violation("oracle", "after [%s] (warnings are errors): the assignment raised %s: %s" % (
+                    "; ".join(hist), type(exc).__name__, exc), ["sweep:laws-only handles: " + "; ".join(hist)]), probes
+            probes += 1
+            msg = None
+            for j in range(2):
+                got = laws[j].applies_to
+                if want[j] is None:
+                    if got is not None:
+                        msg = "L%d.applies_to should be None" % j
+                elif want[j] == "lost" or got is None or want[j]() is not got:
+                    msg = "L%d.applies_to reads %r: the assignment did not stick (the law set is the caller's only handle on that universe)" % (j, got)
+                elif got.laws is not laws[j]:
+                    msg = "L%d.applies_to.laws is not L%d" % (j, j)
+            if msg:
+                return Violation("oracle", "after [%s]: %s" % ("; ".join(hist), msg), ["sweep:laws-only handles: " + "; ".join(hist)]), probes
+        return None, probes
 
     def pre(self, real, line):
         from adapter import rules_index
